@@ -10,17 +10,25 @@ import LithiumModel.Minimize
 
 namespace Strat
 
+/-- first surviving chunk at an absolute index ≥ `frm` in a list whose head has index `i` -/
+def indexFrom : List Bool → Nat → Nat → Option Nat
+  | [], _, _ => none
+  | x :: xs, i, frm => if frm ≤ i && x then some i else indexFrom xs (i + 1) frm
+
 /-- `summary.index("S", from)`: first surviving chunk at index ≥ `from` (`none` = ValueError) -/
-def indexS (summary : List Bool) (frm : Nat) : Option Nat :=
-  ((summary.zipIdx).find? (fun x => x.2 ≥ frm && x.1)).map (·.2)
+def indexS (summary : List Bool) (frm : Nat) : Option Nat := indexFrom summary 0 frm
 
 /-- `summary.rindex("S", 0, stop)`: last surviving chunk at index < `stop` -/
 def rindexS (summary : List Bool) (stop : Nat) : Option Nat :=
   (((summary.zipIdx).filter (fun x => x.2 < stop && x.1)).getLast?).map (·.2)
 
+/-- surviving chunks at absolute indices in `[a, b)` of a list whose head has index `i` -/
+def countFrom : List Bool → Nat → Nat → Nat → Nat
+  | [], _, _, _ => 0
+  | x :: xs, i, a, b => (if a ≤ i && i < b && x then 1 else 0) + countFrom xs (i + 1) a b
+
 /-- `summary.count("S", a, b)` -/
-def countS (summary : List Bool) (a b : Nat) : Nat :=
-  ((summary.zipIdx).filter (fun x => a ≤ x.2 && x.2 < b && x.1)).length
+def countS (summary : List Bool) (a b : Nat) : Nat := countFrom summary 0 a b
 
 def setDead (summary : List Bool) (i : Nat) : List Bool := summary.set i false
 
